@@ -306,7 +306,8 @@ def parse_op(line):
     bats = f[li + 1][2:].split(";") if f[li + 1] != "B=none" else []
     n = f[li + 2][2:].split(",")
     wire = f[li + 3][2:].split(";") if f[li + 3].startswith("W=") and f[li + 3] != "W=none" else []
-    return int(f[1]), int(f[2]), f[3], args, cf, lays, bats, (int(n[0]), int(n[1])), f[-1], wire, atomic
+    outlive = int(n[3]) if len(n) > 3 else 0
+    return int(f[1]), int(f[2]), f[3], args, cf, lays, bats, (int(n[0]), int(n[1]), outlive), f[-1], wire, atomic
 
 
 def check_history(h):
@@ -446,7 +447,7 @@ def main(tier, replay):
                         if bad[0]:
                             conc_fail.append((chunk, int(f[1]), bad[0]))
                 elif line.startswith("OP\t"):
-                    sid, idx, name, args, cf, lays, bats, (nrpc, nerr), impl, wire, atomic = parse_op(line)
+                    sid, idx, name, args, cf, lays, bats, (nrpc, nerr, outlive), impl, wire, atomic = parse_op(line)
                     if atomic is not None:
                         ref.nonatomic = not atomic     # the atomic-mode field may change between calls
                     sid = (chunk, sid)
@@ -465,6 +466,9 @@ def main(tier, replay):
                     if len(samples) < 6 and len(lays) > 1 and nerr and stats["ops"] % 7 == 0:
                         samples.append(line[:400])
                     fails = check_op(ref, name, args, cf, lays, bats, impl, wire)
+                    if outlive:
+                        # a returned call has no effect after its return: every request it started was cancelled or awaited
+                        fails.append(("no-request-outlives-its-call", "0 requests in flight at return", "%d request(s) of the call still in flight when it returned" % outlive))
                     stats["oracle_evals"] += 1
                     for (oname, exp, detail) in fails:
                         specs[sid] = cur_spec
